@@ -482,16 +482,36 @@ Section R2.
     map rd (norm_segs (k_segs k1)) = map rd (norm_segs (k_segs k2)) /\
     qkey (nfq k1) = qkey (nfq k2) /\ fkey (nff k1) = fkey (nff k2).
 
+  Lemma CF_proj w :
+    u_scheme (CF p w) = u_scheme w /\ u_username (CF p w) = u_username w /\ u_password (CF p w) = u_password w /\
+    u_host (CF p w) = u_host w /\ u_port (CF p w) = u_port w /\ u_decodedPort (CF p w) = u_decodedPort w /\
+    u_path (CF p w) = map rd (u_path w) /\ u_opaque (CF p w) = false /\
+    u_query (CF p w) = match u_query w with Some (x :: q) => Some (sp_string c (dec_pairs p (x :: q))) | o => o end /\
+    u_fragment (CF p w) = match u_fragment w with Some (x :: f) => Some (rd (x :: f)) | _ => None end /\
+    u_verrs (CF p w) = u_verrs w /\
+    u_sp (CF p w) = match u_query w with Some (x :: q) => Some (dec_pairs p (x :: q)) | _ => u_sp w end.
+  Proof using.
+    unfold CF, cf_frag, cf_query. cbn [u_query set_path]. destruct (u_query w) as [[|x q]|] eqn:E; cbn; rewrite ?E; repeat split.
+  Qed.
+
+  Lemma eqi_of_fields a b :
+    u_scheme a = u_scheme b -> u_username a = u_username b -> u_password a = u_password b -> u_host a = u_host b ->
+    u_port a = u_port b -> u_decodedPort a = u_decodedPort b -> u_path a = u_path b -> u_opaque a = u_opaque b ->
+    u_query a = u_query b -> u_fragment a = u_fragment b -> u_verrs a = u_verrs b -> u_sp a = u_sp b -> eqi a b.
+  Proof using. unfold eqi. destruct a, b. cbn. intros. subst. reflexivity. Qed.
+
   Lemma CF_requiv k1 k2 h : requiv k1 k2 -> eqi (CF p (nf c k1 h)) (CF p (nf c k2 h)).
   Proof using.
-    intros [E1 [E2 [E3 [E4 [E5 [E6 [E7 E8]]]]]]]. unfold eqi, CF, cf_frag, cf_query, nf, set_input, set_path, set_query, set_sp, set_fragment.
-    cbn [u_input u_scheme u_username u_password u_host u_port u_decodedPort u_path u_opaque u_query u_fragment u_verrs u_sp].
-    fold (nfq k1) (nfq k2) (nff k1) (nff k2). rewrite <- E1, <- E2, <- E3, <- E5, E6.
+    intros [E1 [E2 [E3 [E4 [E5 [E6 [E7 E8]]]]]]].
+    destruct (CF_proj (nf c k1 h)) as [A1 [A2 [A3 [A4 [A5 [A6 [A7 [A8 [A9 [A10 [A11 A12]]]]]]]]]]].
+    destruct (CF_proj (nf c k2 h)) as [B1 [B2 [B3 [B4 [B5 [B6 [B7 [B8 [B9 [B10 [B11 B12]]]]]]]]]]].
+    cbn [nf u_scheme u_username u_password u_host u_port u_decodedPort u_path u_opaque u_query u_fragment u_verrs u_sp] in *.
+    fold (nfq k1) in A9, A12. fold (nfq k2) in B9, B12. fold (nff k1) in A10. fold (nff k2) in B10.
     unfold qkey in E7. unfold fkey in E8.
-    destruct (nfq k1) as [[|x1 q1]|], (nfq k2) as [[|x2 q2]|]; try discriminate E7;
-      cbn [u_input u_scheme u_username u_password u_host u_port u_decodedPort u_path u_opaque u_query u_fragment u_verrs u_sp];
-      destruct (nff k1) as [[|y1 f1]|], (nff k2) as [[|y2 f2]|]; try discriminate E8;
-      try (injection E7 as E7; rewrite E7); try (injection E8 as E8; rewrite E8); reflexivity.
+    apply eqi_of_fields; rewrite ?A1, ?A2, ?A3, ?A4, ?A5, ?A6, ?A7, ?A8, ?A9, ?A10, ?A11, ?A12,
+                                  ?B1, ?B2, ?B3, ?B4, ?B5, ?B6, ?B7, ?B8, ?B9, ?B10, ?B11, ?B12; try congruence.
+    - destruct (nfq k1) as [[|x1 q1]|], (nfq k2) as [[|x2 q2]|]; try discriminate E7; try reflexivity. injection E7 as E7. rewrite E7. reflexivity.
+    - destruct (nfq k1) as [[|x1 q1]|], (nfq k2) as [[|x2 q2]|]; try discriminate E7; try reflexivity. injection E7 as E7. rewrite E7. reflexivity.
   Qed.
 
   Lemma tail_block_eqi a b : eqi a b -> orel (tail_block idna_raw p a) (tail_block idna_raw p b).
